@@ -33,7 +33,7 @@ man = {
     "setup_cmd": "cd /verif/engine && GOFLAGS=-mod=vendor GOPROXY=off GOSUMDB=off GOTOOLCHAIN=local go build -o /verif/bin/govc ./cmd/govc",
     "hooks": {
         "guard": "verif",
-        "enable": "go build/test -tags verif (the only guarded files are comment-only contracts_verif.go files, one per package under contract)",
+        "enable": "go build/test -tags verif (guarded files: comment-only contracts_verif.go, one per package under contract, and livesql/harness_verif.go, a composition function that is compiled only under the tag and called by nothing)",
         "baseline_off_cmd": "cd /repo && GOFLAGS=-mod=mod GOPROXY=off GOSUMDB=off GOTOOLCHAIN=local go test -json -vet=off -count=1 -timeout 25m ./...",
         "source_commits": hook_commits,
         "add_only": True,
